@@ -1,9 +1,13 @@
-"""C01 -- local zone and hosts data always win over cache and upstream (local part).
+"""C01 -- local zone and hosts data always win over cache and upstream.
 
-At this stage the stream and the theorems cover *local resolution* (zones + cache, no
-network): dns_resolver::resolve in authoritative-only mode and local::resolve_local.
-The recursive and forwarding modes (done_means_no_upstream, log_names_not_owned) are
-covered by the resolver subsystem's streams when they land.
+Two streams.  The `local` stream (DRIVER; cases from vlib/localgen.py) covers local resolution
+(zones + cache, no network): dns_resolver::resolve in authoritative-only mode and
+local::resolve_local, compared with the model result for result.  The network-mode stream
+(hook `extra`; cases from vlib/netgen.py, run on the `resolver` drivers) covers the same
+clauses in recursive and forwarding mode, plus the clauses that only exist there: no upstream
+server is asked about a name an authoritative local zone owns, and a question local data
+answers is answered without any upstream exchange.  THEOREMS lists the proved statements;
+the theorems about the network modes are added to Properties/C01.v separately.
 """
 from . import localgen as g
 from .tok import CNAME, ANY, AXFR, MAILB, MAILA, IN
@@ -15,11 +19,36 @@ THEOREMS = ["C01_auth_zone_alone_local", "C01_owned_never_referral", "C01_cache_
             "C01_cache_noninterference_owned_local", "C01_longest_zone_only", "C01_override_exact",
             "C01_override_any", "C01_prioritising_merge_spec", "C01_nxdomain_only_from_auth_zone_local",
             "C01_nxdomain_resolved_local", "C01_no_panic_no_fuel", "C01_authoritative_only_total"]
-RULE = ("case = a set of zones (nested apexes, authoritative and not, wildcards, CNAMEs, delegations, blocklist entries), "
-        "cache contents and 3..96 questions; non-trivial = distinct case line in which at least one question is answered "
-        "(not an error) from zone or cache data according to the model")
+RULE = ("local stream (authoritative-only mode and resolve_local): case = a set of zones (nested apexes, authoritative and not, "
+        "wildcards, CNAMEs, delegations, blocklist entries), cache contents and 3..96 questions; non-trivial = distinct case line in "
+        "which at least one question is answered (not an error) from zone or cache data according to the model.  "
+        "Network-mode stream (recursive in all four protocol modes, and forwarding; counted in `extra`): case = a generated universe "
+        "of upstream servers x local zones that overlap it (root hints zone carrying hosts-style overrides and 0.0.0.0 / :: blocklist "
+        "entries; non-authoritative zones; authoritative zones for an apex upstream also serves with DIFFERENT data, for an apex "
+        "inside an upstream zone, for a private apex; CNAMEs inside and leaving the zone, wildcards, delegations to the universe's "
+        "nameservers) x initial cache (CNAME chains of 1..3 links ending at a name only upstream knows, records for owned names, "
+        "records of the same name and type as overrides, nameserver data) x 1..12 questions on one cache (every type incl. ANY; "
+        "aliases local zone -> cache -> upstream; upstream aliases pointing into owned names; >= 1 referral before an answer); "
+        "non-trivial = distinct case line in which at least one question is answered (not an error) according to the model")
 ASSUMPTIONS = [
-    "local part only: resolve() in authoritative-only mode and resolve_local; recursive/forwarding modes are not exercised here",
+    "all three modes are exercised by streams; the theorems listed cover local resolution (the network-mode theorems "
+    "done_means_no_upstream / log_names_not_owned are being added to Properties/C01.v separately and appear in THEOREMS when proved)",
+    "network-mode stream: what an upstream server says is Universe.serve (the Coq definition, tabulated per case); the forwarder "
+    "is modelled as one server holding every zone of the universe; no transport faults are injected (those are C08's); the "
+    "candidate order is the sorted one of hook H5; the clock is fixed during a case",
+    "network-mode oracle, on the implementation's output alone: (log) no logged exchange asks about a name an authoritative zone "
+    "owns, and a question whose name is owned (clear-cut subclass) or that an override answers has an empty log; (i) authoritative "
+    "marking for the clear-cut subclass: the name is owned and the zone does not answer it with a CNAME (a chain leaving authority "
+    "is non-authoritative: D2); (ii) override exactness as in the local stream -- for ANY judged on successful replies only, since "
+    "the other types are fetched upstream and an unreachable upstream fails the resolution as a whole; (iii) name errors; "
+    "(provenance) every record at an owned name is the zone's",
+    "KNOWN FINDING upstream-chain-into-owned-name (known_findings.json, reported on every run): the clause 'nothing from an "
+    "upstream server is used for names the zone owns' holds for questions about owned names and for every chain the resolver "
+    "follows itself, but NOT for the tail of an alias chain delivered inside one upstream reply (recursive: alias and target on "
+    "one server; forwarding: always).  The oracle files a foreign record under that class only if it stands in an upstream reply "
+    "of the same resolution to a question about another name and is not initial-cache data; it then still judges every other "
+    "clause of the case.  Any other foreign record at an owned name (class foreign-record-for-owned-name / "
+    "cached-record-for-owned-name) is a violation",
     "the cache is read at a fixed virtual instant (clock hook set to 0 and never advanced): cget = SharedCache::get on the "
     "contents inserted by the case; that get() also refreshes the LRU stamp is not observable through resolve_local",
     "Context::at_recursion_limit compares len with Vec::capacity(); the model takes capacity = RECURSION_LIMIT exactly "
@@ -30,7 +59,10 @@ ASSUMPTIONS = [
 TRUSTED = ["oracle restricted (soundness): 'owned' names exclude zones holding wildcard NS records; clause (i) on the reply "
            "variant excludes names that carry a CNAME (deviation D2: a chain leaving authority is non-authoritative) -- "
            "for those only the provenance of every RR at an owned name is checked; clause (ii) excludes names beneath an NS "
-           "cut of the non-authoritative zone and names that also carry a CNAME"]
+           "cut of the non-authoritative zone and names that also carry a CNAME",
+           "network-mode stream: hooks H3 (in-memory UdpSocket/TcpStream) and H5 (sorted candidate order) in /repo under "
+           "cfg(resolved_verif); the mock handler of harness/src/resolver.rs; the reference decoder vlib/wireref.py (used to tell "
+           "which upstream reply a record came from)"]
 
 
 def generate(rng, tier):
@@ -50,10 +82,11 @@ def covering_cname(zone, name):
     return False
 
 
-def clauses(zones, q, res, nlog=None, cache=(), stats=None):
+def clauses(zones, q, res, nlog=None, foreign=None, stats=None):
     """C01's sentences on one question and its reply (parsed by localgen).  nlog = None: local stream; otherwise a
-    network-mode reply, nlog = number of upstream exchanges logged for the question, cache = the initial cache
-    contents (parsed), stats = counters of how often each clause applied.  -> None | (class, text)"""
+    network-mode reply, nlog = number of upstream exchanges logged for the question; foreign(i, rr, text) names the
+    failure class for a foreign record at an owned name (network modes tell where it came from); stats = counters of how often
+    each clause applied.  -> None | (class, text)"""
     net = nlog is not None
 
     def count(k):
@@ -70,17 +103,11 @@ def clauses(zones, q, res, nlog=None, cache=(), stats=None):
         if zo is not None:
             count("provenance: records at owned names")
         if zo is not None and not g.zone_may_produce(zo, r):
-            klass = "foreign-record-for-owned-name"
-            if net:
-                # network modes: the record is one the case put into the cache, or one an upstream reply supplied.
-                # The second happens although upstream is never ASKED about an owned name (that is checked on the
-                # log before this): the reply to a question about another name carried its alias chain into the
-                # owned name -- known finding of C01, see known_findings.json
-                held = any(c["name"] == r["name"] and c["type"] == r["type"] and c["data"] == r["data"] for c in cache)
-                klass = "cached-record-for-owned-name" if held else "upstream-chain-into-owned-name"
-            return (klass,
-                    "question %s: the reply holds %s type %d ttl %d %s, which is not a record of the authoritative zone %s that owns the name"
+            text = ("question %s: the reply holds %s type %d ttl %d %s, which is not a record of the authoritative zone %s that owns the name"
                     % (qs, g.show_name(r["name"]), r["type"], r["ttl"], r["data"], g.show_name(zo["apex"])))
+            klass = "foreign-record-for-owned-name" if foreign is None else foreign(rrs.index(r), r, text)
+            if klass is not None:       # (None: the caller has taken note and wants the other clauses judged as well)
+                return (klass, text)
     # (i) owned names are answered authoritatively, with the owning zone's SOA
     z = g.owned_auth(zones, n)
     if z is not None and (qt in (CNAME, ANY) or not covering_cname(z, n)):
@@ -180,12 +207,32 @@ def net_oracle(case, impl, stats=None):
                 stats["log: exchanges checked for owned names"] = stats.get("log: exchanges checked for owned names", 0) + sum(len(r.log) for r in results)
             if why:
                 return ("upstream-asked-about-owned-name", why)
+        known = []
         for q, r in zip(questions, results):
             if r.kind in ("Panic", "OutOfFuel"):
                 continue
-            f = clauses(zones, q, g.parse_resolved(r.raw), nlog=len(r.log), cache=cache, stats=stats)
+
+            def foreign(i, rr, text, r=r):
+                """where a record at an owned name that is not the zone's came from"""
+                if any(x["name"] == rr["name"] and x["type"] == rr["type"] and x["data"] == rr["data"] for x in cache):
+                    return "cached-record-for-owned-name"
+                # the known finding of C01 (known_findings.json), narrowly: the record stands in the answer section of
+                # an upstream reply of THIS resolution to a question about another name -- the reply carried its own
+                # alias chain into the owned name (upstream was never asked about an owned name: checked above).
+                # It is noted and the remaining clauses are still judged, so it cannot mask anything else.
+                for e in r.log:
+                    ans = netgen.reply_answers(c, e)
+                    if ans and r.rrs[i] in ans and g.labels_of(e.qname) != rr["name"]:
+                        known.append(("upstream-chain-into-owned-name",
+                                      text + " -- it stands in the upstream reply to the question about %s, whose alias chain leads there"
+                                      % rg.tokname(e.qname)))
+                        return None
+                return "foreign-record-for-owned-name"
+            f = clauses(zones, q, g.parse_resolved(r.raw), nlog=len(r.log), foreign=foreign, stats=stats)
             if f is not None:
                 return f
+        if known:
+            return known[0]
     except Exception:      # malformed output is a correspondence matter
         return None
     return None
